@@ -250,7 +250,6 @@ def stateprep_on_permuted_labels(ops, order):
         for w in o.wires:
             if w not in tw:
                 tw.append(w)
-    tw += [w for w in order if w not in tw]
     return any(o.name == "StatePrep" for o in ops) and all(isinstance(w, (int, np.integer)) for w in tw) \
         and sorted(tw) == list(range(len(tw))) and tw != sorted(tw)
 
@@ -297,8 +296,17 @@ def analytic_case(ctx, qp, rng, gi):
     has_sxdg = any(o.name in ("Adjoint(SX)", "SX") for o in ops)
     base_fp = (tuple(info["ops"]), repr(dw), tab)
     prep_perm = stateprep_on_permuted_labels(ops, order)
-    # no operation reaches stim (only barriers / snapshots / global phases / BasisState of zeros) and the device has no wires: no qubit is allocated
-    empty_stim = dw is None and all(o.name in ("Barrier", "Snapshot", "GlobalPhase") or (o.name == "BasisState" and not np.any(np.asarray(o.data[0]))) for o in ops)
+    # with a wire-less device stim allocates qubits only up to the highest one touched by a gate: wires that only occur in barriers / global
+    # phases / BasisState zeros are then missing from states and tableaus
+    touched = set()
+    for o in ops:
+        if o.name in ("Barrier", "Snapshot", "GlobalPhase"):
+            continue
+        if o.name == "BasisState":
+            touched |= {w for w, b in zip(o.wires, np.asarray(o.data[0]).reshape(-1)) if b}
+        else:
+            touched |= set(o.wires)
+    empty_stim = dw is None and any(w not in touched for w in used)
 
     def layout_state(m):
         lay, tw = device_layout(qp, dev, ops, m)
@@ -332,7 +340,7 @@ def analytic_case(ctx, qp, rng, gi):
             elif kind in ("probs", "probs-op", "expval-projector") and not tab and isinstance(e, ValueError) and "reshape" in str(e):
                 mech = "probs:tableau-false:state-layout"
             elif empty_stim:
-                mech = "empty-circuit:no-qubits-allocated"
+                mech = "untouched-wires:no-qubits-allocated"
             else:
                 mech = f"raises:{kind}:{tn}"
             cs.viol("analytic.value", f"{desc} raised {tn}: {str(e)[:200]}", mech, extra={"measurement": desc})
@@ -349,7 +357,7 @@ def analytic_case(ctx, qp, rng, gi):
             if mech is None and prep_perm:
                 mech = "stateprep:label-permutation"
             if mech is None and empty_stim:
-                mech = "empty-circuit:no-qubits-allocated"
+                mech = "untouched-wires:no-qubits-allocated"
             if mech is None and not tab and kind in ("probs", "probs-op", "expval-projector"):
                 # tableau=False branch of _measure_probability: a fresh simulator's state vector is read with the tape's wire order
                 mech = "probs:tableau-false:state-layout"
